@@ -1,8 +1,998 @@
 /-
   Lemmas for C07: soundness of the inference model (`Model/TcInfer.lean`)
-  against the declarative checker (`Model/Typing.lean`).
+  against the declarative checker (`Model/Typing.lean`) — infrastructure and
+  the per-construct lemmas.
+
+  * the monad of the model (`bind_ok`, …), the primitive steps (`fresh_var`,
+    `resolve_type`, `unify`) as store extensions: every step keeps the store
+    well-formed and every solution of the later store solves the earlier one;
+  * `den σ (toM t) = t` for written types, `den σ t` ground for well-formed `t`;
+  * checker scopes under a valuation (`denG`), the fragment `coreE/coreB/…`,
+    what acceptance means (`PostE`, `PostB`, `PostS`, `PostArgs`);
+  * `Negate` (`neg_sound`), `binop` with its special cases (`binopWith_sound`).
 -/
 import RotoV.Lemmas.TcInferUnify
+import RotoV.Lemmas.TypingAux
 
 namespace RotoV.TcInfer
+open RotoV.Typing RotoV.Unify RotoV.Gen
+
+/-! ### the monad -/
+
+theorem bind_ok {α β : Type} {x : M α} {f : α → M β} {st : St} {b : β} {st'' : St} :
+    (x >>= f) st = .ok b st'' ↔ ∃ a st', x st = .ok a st' ∧ f a st' = .ok b st'' := by
+  show M.bind x f st = _ ↔ _
+  unfold M.bind
+  cases h : x st with
+  | ok a st' =>
+    simp only [Res.ok.injEq]
+    constructor
+    · intro hf; exact ⟨a, st', ⟨rfl, rfl⟩, hf⟩
+    · rintro ⟨a1, st1, ⟨rfl, rfl⟩, hf⟩; exact hf
+  | err e => simp
+  | ice => simp
+  | stuck => simp
+
+theorem pure_ok {α : Type} {a b : α} {st st' : St} : (pure a : M α) st = .ok b st' ↔ a = b ∧ st = st' := by
+  show M.pure a st = _ ↔ _
+  unfold M.pure
+  simp
+
+theorem throw_ok {α : Type} {e : Err} {b : α} {st st' : St} : (throw e : M α) st = .ok b st' ↔ False := by
+  unfold throw; simp
+
+/-- a valuation into ground types -/
+def GVal (σ : Val) : Prop := ∀ i, ground (σ i) = true
+
+/-- a later state: well-formedness is kept and every solution of the later
+    store solves the earlier one -/
+def Ext (st st' : St) : Prop :=
+  (WTs st.store → WTs st'.store) ∧ ∀ σ : Val, Sat σ st'.store → Sat σ st.store
+
+theorem Ext.refl (st : St) : Ext st st := ⟨id, fun _ h => h⟩
+theorem Ext.trans {a b c : St} (h1 : Ext a b) (h2 : Ext b c) : Ext a c :=
+  ⟨fun h => h2.1 (h1.1 h), fun σ h => h1.2 σ (h2.2 σ h)⟩
+
+theorem Sat_append {σ : Val} {s : Store} {t : MTy} (h : Sat σ (s ++ [t])) : Sat σ s := by
+  intro i r hr
+  apply h i r
+  have := lt_of_getElem? hr
+  rw [List.getElem?_append_left this]; exact hr
+
+theorem WTs_append {s : Store} {t : MTy} (h : WTs s) (ht : WT t = true) : WTs (s ++ [t]) := by
+  intro i r hr
+  by_cases hi : i < s.length
+  · rw [List.getElem?_append_left hi] at hr; exact h i r hr
+  · by_cases hi2 : i = s.length
+    · subst hi2; simp at hr; subst hr; exact ht
+    · have : (s ++ [t])[i]? = none := by simp; omega
+      rw [this] at hr; cases hr
+
+theorem freshVar_ok {st st' : St} {t : MTy} (h : freshVar st = .ok t st') :
+    t = .var st.store.length ∧ Ext st st' := by
+  unfold freshVar fresh at h
+  simp only [Res.ok.injEq] at h
+  obtain ⟨rfl, rfl⟩ := h
+  exact ⟨rfl, fun hW => WTs_append hW rfl, fun σ hs => Sat_append hs⟩
+
+theorem freshInt_ok {st st' : St} {t : MTy} (h : freshInt st = .ok t st') :
+    t = .intVar st.store.length false ∧ Ext st st' ∧
+      ∀ σ : Val, Sat σ st'.store → isGInt (σ st.store.length) = true := by
+  unfold freshInt fresh at h
+  simp only [Res.ok.injEq] at h
+  obtain ⟨rfl, rfl⟩ := h
+  refine ⟨rfl, ⟨fun hW => WTs_append hW rfl, fun σ hs => Sat_append hs⟩, fun σ hs => ?_⟩
+  have := hs st.store.length (.intVar st.store.length false) (by simp)
+  exact this.2.1
+
+theorem freshFloat_ok {st st' : St} {t : MTy} (h : freshFloat st = .ok t st') :
+    t = .floatVar st.store.length ∧ Ext st st' ∧
+      ∀ σ : Val, Sat σ st'.store → isGFloat (σ st.store.length) = true := by
+  unfold freshFloat fresh at h
+  simp only [Res.ok.injEq] at h
+  obtain ⟨rfl, rfl⟩ := h
+  refine ⟨rfl, ⟨fun hW => WTs_append hW rfl, fun σ hs => Sat_append hs⟩, fun σ hs => ?_⟩
+  have := hs st.store.length (.floatVar st.store.length) (by simp)
+  exact this.2
+
+theorem resolveM_ok {st st' : St} {t t' : MTy} (h : resolveM t st = .ok t' st') :
+    st = st' ∧ resolve st.store t = some t' := by
+  unfold resolveM at h
+  cases hr : resolve st.store t with
+  | none => simp [hr] at h
+  | some r => simp [hr] at h; exact ⟨h.2, by rw [h.1]⟩
+
+/-- `unify(expected, found)` on well-formed types -/
+theorem unifyM_ok {env : Env} {st st' : St} {a b : MTy} {u : Unit} (h : unifyM env a b st = .ok u st')
+    (hW : WTs st.store) (ha : WT a = true) (hb : WT b = true) :
+    WTs st'.store ∧ Ext st st' ∧ ∀ σ : Val, Sat σ st'.store → den σ a = den σ b := by
+  unfold unifyM at h
+  cases hu : unifyTop (mkDefs env) fuel st.store a b with
+  | ok t s =>
+    simp only [hu, Res.ok.injEq] at h
+    obtain ⟨_, rfl⟩ := h
+    obtain ⟨h1, h2⟩ := unifyTop_sound (mkDefs_std env) fuel st.store a b t s hW ha hb hu
+    exact ⟨h1, ⟨fun _ => h1, fun σ hs => (h2 σ hs).1⟩, fun σ hs => (h2 σ hs).2⟩
+  | fail s => simp [hu] at h
+  | ice => simp [hu] at h
+  | stuck => simp [hu] at h
+
+/-- `unify(expected, !)`: a diverging expression fits; nothing changes -/
+theorem unifyM_never {env : Env} {st st' : St} {a : MTy} {u : Unit}
+    (h : unifyM env a .never st = .ok u st') : st = st' := by
+  unfold unifyM unifyTop at h
+  have h1 : C07Facts.unifyFoundNeverFitsAll = true := by decide
+  have hn : resolve st.store MTy.never = some MTy.never := rfl
+  simp only [h1, hn] at h
+  cases hr : resolve st.store a with
+  | none => simp [hr] at h
+  | some e => simp [hr] at h; exact h
+
+end RotoV.TcInfer
+
+namespace RotoV.TcInfer
+open RotoV.Typing RotoV.Unify RotoV.Gen
+
+/-- a type a script can write (no flexible type inside; the four other built-in ground types) -/
+def plain : Ty → Bool
+  | .int _ | .f32 | .f64 | .bool | .string | .unit | .named _ => true
+  | .opt t | .list t => plain t
+  | .verdict a r => plain a && plain r
+  | .prim k => decide (k < 4)
+  | _ => false
+
+theorem ityOf_ityNum (t : ITy) : ityOf (ityNum t) = t := by cases t <;> rfl
+theorem ityNum_lt (t : ITy) : ityNum t < 8 := by cases t <;> decide
+
+theorem den_toM (σ : Val) : ∀ t, plain t = true → den σ (toM t) = t ∧ WT (toM t) = true ∧ ground t = true := by
+  intro t
+  induction t with
+  | int t => intro _; cases t <;> simp [toM, den, denL, denName, ityNum, ityOf, WT, WTl, arity, ground, nmOption, nmList, nmVerdict]
+  | f32 => intro _; simp [toM, den, denL, denName, WT, WTl, arity, ground, nmF32, nmOption, nmList, nmVerdict]
+  | f64 => intro _; simp [toM, den, denL, denName, WT, WTl, arity, ground, nmF64, nmOption, nmList, nmVerdict]
+  | bool => intro _; simp [toM, tBool, den, denL, denName, WT, WTl, arity, ground, nmBool, nmOption, nmList, nmVerdict]
+  | string => intro _; simp [toM, tString, den, denL, denName, WT, WTl, arity, ground, nmString, nmOption, nmList, nmVerdict]
+  | unit => intro _; simp [toM, den, WT, ground]
+  | opt t ih =>
+    intro h; simp only [plain] at h
+    obtain ⟨h1, h2, h3⟩ := ih h
+    simp [toM, tOption, den, denL, denName, h1, WT, WTl, h2, arity, ground, h3, nmOption]
+  | list t ih =>
+    intro h; simp only [plain] at h
+    obtain ⟨h1, h2, h3⟩ := ih h
+    simp [toM, tList, den, denL, denName, h1, WT, WTl, h2, arity, ground, h3, nmList, nmOption]
+  | named n =>
+    intro _
+    have h1 : ¬ (32 + n < 8) := by omega
+    have h2 : ¬ (32 + n < 32) := by omega
+    have h3 : (32 + n == 8) = false := by simp; omega
+    have h4 : (32 + n == 9) = false := by simp; omega
+    have h5 : (32 + n == 10) = false := by simp; omega
+    have h6 : (32 + n == 11) = false := by simp; omega
+    have h7 : (32 + n == 12) = false := by simp; omega
+    have h8 : (32 + n == 13) = false := by simp; omega
+    have h9 : (32 + n == 14) = false := by simp; omega
+    simp [toM, den, denL, denName, nmUser, WT, WTl, arity, ground, nmOption, nmList, nmVerdict, h1, h2, h3, h4, h5, h6, h7, h8, h9]
+  | verdict a r iha ihr =>
+    intro h; simp only [plain, Bool.and_eq_true] at h
+    obtain ⟨h1, h2, h3⟩ := iha h.1
+    obtain ⟨h4, h5, h6⟩ := ihr h.2
+    simp [toM, tVerdict, den, denL, denName, h1, h4, WT, WTl, h2, h5, arity, ground, h3, h6, nmVerdict, nmOption, nmList]
+  | prim k =>
+    intro h; simp only [plain, decide_eq_true_eq] at h
+    have : k = 0 ∨ k = 1 ∨ k = 2 ∨ k = 3 := by omega
+    rcases this with rfl | rfl | rfl | rfl <;> simp [toM, den, denL, denName, nmChar, WT, WTl, arity, ground, nmOption, nmList, nmVerdict]
+  | anyInt s => intro h; simp [plain] at h
+  | anyFloat => intro h; simp [plain] at h
+  | unknown => intro h; simp [plain] at h
+  | never => intro h; simp [plain] at h
+
+theorem denName_ground (n : Nat) (args : List Ty) (h : args.all ground = true) : ground (denName n args) = true := by
+  unfold denName
+  repeat' split
+  all_goals first
+    | rfl
+    | (cases args with
+       | nil => rfl
+       | cons a as =>
+         simp only [List.all_cons, Bool.and_eq_true] at h
+         first
+           | (simp only [List.headD_cons, ground]; exact h.1)
+           | (cases as with
+              | nil => simp [ground, h.1]
+              | cons b bs =>
+                simp only [List.all_cons, Bool.and_eq_true] at h
+                simp [ground, h.1, h.2.1]))
+
+mutual
+theorem den_ground {σ : Val} (hσ : GVal σ) : ∀ t, WT t = true → ground (den σ t) = true
+  | .var n, _ | .intVar n _, _ | .floatVar n, _ => by simp only [den]; exact hσ n
+  | .unit, _ => rfl
+  | .name n args, h => by
+    simp only [WT, Bool.and_eq_true, beq_iff_eq] at h
+    simp only [den]
+    exact denName_ground n _ (denL_ground hσ args h.1)
+  | .explicitVar _, h | .recordVar _ _, h | .never, h | .record _, h | .func _ _, h => by simp [WT] at h
+theorem denL_ground {σ : Val} (hσ : GVal σ) : ∀ ts, WTl ts = true → (denL σ ts).all ground = true
+  | [], _ => rfl
+  | t :: ts, h => by
+    simp only [WTl, Bool.and_eq_true] at h
+    simp only [denL, List.all_cons, Bool.and_eq_true]
+    exact ⟨den_ground hσ t h.1, denL_ground hσ ts h.2⟩
+end
+
+end RotoV.TcInfer
+
+namespace RotoV.TcInfer
+open RotoV.Typing RotoV.Unify RotoV.Gen
+
+def denS (σ : Val) : MScope → Scope
+  | [] => []
+  | (x, t) :: r => (x, den σ t) :: denS σ r
+
+def denG (σ : Val) : MGamma → Gamma
+  | [] => []
+  | s :: r => denS σ s :: denG σ r
+
+theorem lookup_denS (σ : Val) (x : Nat) : ∀ s : MScope, (denS σ s).lookup x = (s.lookup x).map (den σ)
+  | [] => rfl
+  | (y, t) :: r => by
+    simp only [denS, List.lookup]
+    cases (x == y) with
+    | true => rfl
+    | false => exact lookup_denS σ x r
+
+theorem lookup_denG (σ : Val) (x : Nat) : ∀ g : MGamma, lookupVar (denG σ g) x = (lookupM g x).map (den σ)
+  | [] => rfl
+  | s :: r => by
+    simp only [denG, lookupVar, lookupM, lookup_denS]
+    cases s.lookup x with
+    | some t => rfl
+    | none => exact lookup_denG σ x r
+
+def WTg (g : MGamma) : Prop := ∀ s ∈ g, ∀ p ∈ s, WT p.2 = true
+
+theorem lookup_mem {s : MScope} {x : Nat} {t : MTy} (h : s.lookup x = some t) : (x, t) ∈ s := by
+  induction s with
+  | nil => simp [List.lookup] at h
+  | cons p r ih =>
+    obtain ⟨y, u⟩ := p
+    simp only [List.lookup] at h
+    cases hxy : (x == y) with
+    | true =>
+      simp only [hxy] at h; cases h
+      have : x = y := by simpa using hxy
+      subst this; exact List.mem_cons_self
+    | false => simp only [hxy] at h; exact List.mem_cons_of_mem _ (ih h)
+
+theorem lookupM_WT {g : MGamma} (hg : WTg g) {x : Nat} {t : MTy} (h : lookupM g x = some t) : WT t = true := by
+  induction g with
+  | nil => simp [lookupM] at h
+  | cons s r ih =>
+    simp only [lookupM] at h
+    cases hs : s.lookup x with
+    | some u =>
+      simp only [hs] at h; cases h
+      exact hg s List.mem_cons_self _ (lookup_mem hs)
+    | none =>
+      simp only [hs] at h
+      exact ih (fun s' hs' => hg s' (List.mem_cons_of_mem _ hs')) h
+
+theorem WTg_push {g : MGamma} (hg : WTg g) : WTg ([] :: g) := by
+  intro s hs p hp
+  cases hs with
+  | head => cases hp
+  | tail _ h => exact hg s h p hp
+
+theorem declareM_ok {g g' : MGamma} {x : Nat} {t : MTy} {st st' : St} (h : declareM g x t st = .ok g' st') :
+    st = st' ∧ (∀ σ : Val, declare (denG σ g) x (den σ t) = some (denG σ g')) ∧
+      (WTg g → WT t = true → WTg g') := by
+  cases g with
+  | nil =>
+    simp only [declareM] at h
+    obtain ⟨rfl, rfl⟩ := pure_ok.mp h
+    refine ⟨rfl, fun σ => rfl, fun _ ht => ?_⟩
+    intro s hs p hp
+    simp only [List.mem_singleton] at hs; subst hs
+    simp only [List.mem_singleton] at hp; subst hp; exact ht
+  | cons s r =>
+    simp only [declareM] at h
+    cases hl : s.lookup x with
+    | some u => simp only [hl, Option.isSome_some, if_true] at h; exact (throw_ok.mp h).elim
+    | none =>
+      simp only [hl, Option.isSome_none, Bool.false_eq_true, if_false] at h
+      obtain ⟨rfl, rfl⟩ := pure_ok.mp h
+      refine ⟨rfl, fun σ => ?_, fun hg ht => ?_⟩
+      · simp only [denG, declare, lookup_denS, hl, Option.map_none, Option.isSome_none, Bool.false_eq_true,
+          if_false, denS]
+      · intro s' hs' p hp
+        cases hs' with
+        | head =>
+          cases hp with
+          | head => exact ht
+          | tail _ hp' => exact hg s List.mem_cons_self p hp'
+        | tail _ h' => exact hg s' (List.mem_cons_of_mem _ h') p hp
+
+/-- the declarative context of a checker context under a valuation -/
+def denCx (σ : Val) (cx : Cx) : Ctx := ⟨cx.ret.map (den σ)⟩
+
+def WTcx (cx : Cx) : Prop := WT cx.expected = true ∧ ∀ r, cx.ret = some r → WT r = true
+
+theorem WTcx_with {cx : Cx} (h : WTcx cx) {t : MTy} (ht : WT t = true) : WTcx (cx.withTy t) := ⟨ht, h.2⟩
+
+/-- the signatures of the environment are written types -/
+def EnvPlain (env : Env) : Prop :=
+  ∀ f sig, env.fns.lookup f = some sig → sig.params.all plain = true ∧ plain sig.ret = true
+
+/-! the constructs of the fragment `infer_sound` covers -/
+mutual
+def coreE : Expr → Bool
+  | .intLit _ | .floatLit _ | .boolLit | .strLit | .unitLit | .var _ => true
+  | .neg e | .not e => coreE e
+  | .bin op l r => op != .div && coreE l && coreE r
+  | .ite c t none => coreE c && coreB t
+  | .ite c t (some e) => coreE c && coreB t && coreB e
+  | .while c b => coreE c && coreB b
+  | .block b => coreB b
+  | .call _ args => coreL args
+  | .ret _ none => true
+  | .ret _ (some e) => coreE e
+  | _ => false
+def coreL : List Expr → Bool
+  | [] => true
+  | e :: es => coreE e && coreL es
+def coreS : List Stmt → Bool
+  | [] => true
+  | .let_ _ none e :: rest => coreE e && coreS rest
+  | .let_ _ (some a) e :: rest => plain a && coreE e && coreS rest
+  | .expr e :: rest => coreE e && coreS rest
+def coreB : Block → Bool
+  | .mk ss none => coreS ss
+  | .mk ss (some e) => coreS ss && coreE e
+end
+
+/-- what acceptance of an expression by the inference model means -/
+def PostE (env : Env) (cx : Cx) (g : MGamma) (e : Expr) (st : St) (d : Bool) (st' : St) : Prop :=
+  WTs st'.store ∧ ∀ σ : Val, GVal σ → Sat σ st'.store → Sat σ st.store ∧
+    ∀ gd, gammaInst gd (denG σ g) = true →
+      ∃ t dd, synth env (denCx σ cx) gd e = .ok (t, dd) ∧ inst t (den σ cx.expected) = true ∧
+        (d = true → dd = true)
+
+def PostB (env : Env) (cx : Cx) (g : MGamma) (b : Block) (st : St) (d : Bool) (st' : St) : Prop :=
+  WTs st'.store ∧ ∀ σ : Val, GVal σ → Sat σ st'.store → Sat σ st.store ∧
+    ∀ gd, gammaInst gd (denG σ g) = true →
+      ∃ t dd, synthBlock env (denCx σ cx) gd b = .ok (t, dd) ∧ inst t (den σ cx.expected) = true ∧
+        (d = true → dd = true)
+
+def PostS (env : Env) (cx : Cx) (g : MGamma) (ss : List Stmt) (st : St) (g' : MGamma) (d : Bool) (st' : St) : Prop :=
+  WTs st'.store ∧ WTg g' ∧ ∀ σ : Val, GVal σ → Sat σ st'.store → Sat σ st.store ∧
+    ∀ gd, gammaInst gd (denG σ g) = true →
+      ∃ gd' dd, synthStmts env (denCx σ cx) gd ss = .ok (gd', dd) ∧ gammaInst gd' (denG σ g') = true ∧
+        (d = true → dd = true)
+
+/-- the expression was checked against a type `found` that the expected type was unified with -/
+theorem inst_of_eq {t a b : Ty} (h : inst t a = true) (e : b = a) : inst t b = true := e ▸ h
+
+def PostArgs (env : Env) (cx : Cx) (g : MGamma) (es : List Expr) (ps : List Ty) (st : St) (d : Bool) (st' : St) : Prop :=
+  WTs st'.store ∧ ∀ σ : Val, GVal σ → Sat σ st'.store → Sat σ st.store ∧
+    ∀ gd, gammaInst gd (denG σ g) = true →
+      ∃ dd, checkArgs env (denCx σ cx) gd es ps = .ok dd ∧ (d = true → dd = true)
+
+theorem expect_ok' {what : String} {a b : Ty} (h : compat a b = true) : expect what a b = .ok () := by
+  simp [expect, h, pure, Except.pure]
+
+theorem denCx_with (σ : Val) (cx : Cx) (t : MTy) : denCx σ (cx.withTy t) = denCx σ cx := rfl
+
+theorem denG_push (σ : Val) (g : MGamma) : denG σ ([] :: g) = [] :: denG σ g := rfl
+
+theorem wfTy_of_plain (env : Env) : ∀ t, plain t = true → wfTy env t = true → True := fun _ _ _ => trivial
+
+end RotoV.TcInfer
+
+namespace RotoV.TcInfer
+open RotoV.Typing RotoV.Unify RotoV.Gen
+
+theorem WT_var (n : Nat) : WT (.var n) = true := by simp [WT]
+theorem WT_unit : WT .unit = true := by simp [WT]
+
+theorem den_name0 (σ : Val) (n : Nat) : den σ (.name n []) = denName n [] := by simp [den, denL]
+theorem den_tBool (σ : Val) : den σ tBool = .bool := by simp [tBool, den, denL, denName, nmBool]
+theorem den_tString (σ : Val) : den σ tString = .string := by simp [tString, den, denL, denName, nmString]
+theorem den_int (σ : Val) (t : ITy) : den σ (.name (ityNum t) []) = .int t := by
+  cases t <;> simp [den, denL, denName, ityNum, ityOf]
+theorem den_f32 (σ : Val) : den σ (.name nmF32 []) = .f32 := by simp [den, denL, denName, nmF32]
+theorem den_f64 (σ : Val) : den σ (.name nmF64 []) = .f64 := by simp [den, denL, denName, nmF64]
+theorem WT_name0 (n : Nat) (h : n < 12) : WT (.name n []) = true := by
+  simp only [WT, WTl, arity, nmOption, nmList, nmVerdict, Bool.true_and, List.length_nil]
+  have h1 : (n == 12) = false := by simp; omega
+  have h2 : (n == 13) = false := by simp; omega
+  have h3 : (n == 14) = false := by simp; omega
+  simp [h1, h2, h3]
+theorem WT_tBool : WT tBool = true := WT_name0 10 (by decide)
+theorem WT_tString : WT tString = true := WT_name0 11 (by decide)
+
+
+theorem resolve_idem {s : Store} {a r : MTy} (h : resolve s a = some r) : resolve s r = some r := by
+  cases hv : r.varIndex with
+  | none => unfold resolve; simp [hv]
+  | some v =>
+    have hroot := resolve_root h hv
+    unfold resolve
+    simp only [hv]
+    unfold find
+    simp [hroot, hv]
+
+/-- `Negate` marking an integer-literal variable as must-be-signed -/
+theorem markSigned_spec {s : Store} {a r : MTy} (hres : resolve s a = some r) (hW : WTs s) :
+    WTs (markSigned s r) ∧ ∀ σ : Val, Sat σ (markSigned s r) → Sat σ s ∧
+      (∀ i sg, r = .intVar i sg → isGSigned (σ i) = true) := by
+  have hrr := resolve_idem hres
+  unfold markSigned
+  rw [hrr]
+  cases r with
+  | intVar i sg =>
+    have hroot : s[i]? = some (.intVar i sg) := resolve_root hres rfl
+    cases sg with
+    | false =>
+      simp only
+      refine ⟨WTs_set hW (by simp [WT]), fun σ hs => ?_⟩
+      obtain ⟨_, hk⟩ := Sat_set_new hs (lt_of_getElem? hroot)
+      simp only [KindOk] at hk
+      refine ⟨Sat_set hs (by
+        intro r' hr'; rw [hroot] at hr'; cases hr'
+        exact ⟨by simp [den], by simp only [KindOk]; exact ⟨hk.1, by intro h; cases h⟩⟩), ?_⟩
+      intro i' sg' he; cases he; exact hk.2 trivial
+    | true =>
+      simp only
+      refine ⟨hW, fun σ hs => ⟨hs, ?_⟩⟩
+      intro i' sg' he; cases he
+      have := (hs i _ hroot).2
+      simp only [KindOk] at this
+      exact this.2 trivial
+  | _ => exact ⟨hW, fun σ hs => ⟨hs, by intro i sg he; cases he⟩⟩
+
+/-- a resolved operand `Negate` accepts denotes a type that can be negated -/
+theorem negatable_of {env : Env} {s : Store} {a r : MTy} {σ : Val} (hres : resolve s a = some r)
+    (hWr : WT r = true) (hs : Sat σ s)
+    (hsg : ∀ i sg, r = .intVar i sg → isGSigned (σ i) = true)
+    (hu : isUnsignedR env r = false) (hn : isNumericR env r = true) :
+    negTy (den σ r) = some (den σ r) := by
+  have hd := mkDefs_std env
+  cases r with
+  | intVar i sg =>
+    have := hsg i sg rfl
+    simp only [den]
+    cases hv : σ i <;> simp [hv, isGSigned] at this
+    simp [negTy, isNegatable, this]
+  | floatVar i =>
+    have hroot : s[i]? = some (.floatVar i) := resolve_root hres rfl
+    have := (hs i _ hroot).2
+    simp only [KindOk] at this
+    simp only [den]
+    cases hv : σ i <;> simp [hv, isGFloat] at this <;> simp [negTy, isNegatable]
+  | name n args =>
+    simp only [isUnsignedR, isNumericR, hd.isInt, hd.isSigned, hd.isFloat] at hu hn
+    simp only [den]
+    have : (4 ≤ n ∧ n < 8) ∨ n = 8 ∨ n = 9 := by
+      simp only [Bool.and_eq_false_iff, Bool.or_eq_true, decide_eq_true_eq, decide_eq_false_iff_not,
+        Bool.not_eq_false', beq_iff_eq] at hu hn
+      omega
+    rcases this with ⟨h1, h2⟩ | rfl | rfl
+    · have h3 := ityOf_signed n ⟨h1, h2⟩
+      simp [denName, h2, negTy, isNegatable, h3]
+    · simp [denName, negTy, isNegatable]
+    · simp [denName, negTy, isNegatable]
+  | var _ => simp [isNumericR] at hn
+  | unit => simp [isNumericR] at hn
+  | _ => simp [WT] at hWr
+
+theorem neg_sound {env : Env} {e : Expr}
+    (ih : ∀ cx g st d st', WTs st.store → WTcx cx → WTg g → infer env cx g e st = .ok d st' →
+      PostE env cx g e st d st')
+    {cx : Cx} {g : MGamma} {st : St} {d : Bool} {st' : St} (hW : WTs st.store) (hcx : WTcx cx) (hg : WTg g)
+    (h : infer env cx g (.neg e) st = .ok d st') : PostE env cx g (.neg e) st d st' := by
+  simp only [infer] at h
+  obtain ⟨operand, st1, h1, h2⟩ := bind_ok.mp h
+  obtain ⟨rfl, hE1⟩ := freshVar_ok h1
+  obtain ⟨d1, st2, h3, h4⟩ := bind_ok.mp h2
+  obtain ⟨r, st3, h5, h6⟩ := bind_ok.mp h4
+  obtain ⟨rfl, hres⟩ := resolveM_ok h5
+  obtain ⟨hW2, hp⟩ := ih (cx.withTy (.var st.store.length)) g st1 d1 st2 (hE1.1 hW) (WTcx_with hcx (WT_var _)) hg h3
+  have hWr : WT r = true := resolve_WT hW2 (WT_var _) hres
+  by_cases hu : isUnsignedR env r = true
+  · simp only [hu, if_true] at h6; exact (throw_ok.mp h6).elim
+  · simp only [hu, Bool.false_eq_true, if_false] at h6
+    by_cases hn : isNumericR env r = true
+    · simp only [hn, if_true] at h6
+      obtain ⟨u1, st4, h7, h8⟩ := bind_ok.mp h6
+      obtain ⟨u2, st5, h9, h10⟩ := bind_ok.mp h8
+      obtain ⟨rfl, rfl⟩ := pure_ok.mp h10
+      unfold markSignedM at h7
+      simp only [Res.ok.injEq] at h7
+      obtain ⟨_, rfl⟩ := h7
+      obtain ⟨hW4, hm⟩ := markSigned_spec hres hW2
+      obtain ⟨hW5, hE5, heq5⟩ := unifyM_ok h9 hW4 hcx.1 hWr
+      refine ⟨hW5, fun σ hσ hs => ?_⟩
+      have hs4 := hE5.2 σ hs
+      obtain ⟨hs2, hsg⟩ := hm σ hs4
+      obtain ⟨hs1, hsyn⟩ := hp σ hσ hs2
+      refine ⟨hE1.2 σ hs1, fun gd hgd => ?_⟩
+      obtain ⟨t, dd, a1, a2, a3⟩ := hsyn gd hgd
+      have a1' : synth env (denCx σ cx) gd e = .ok (t, dd) := a1
+      have hden : den σ r = den σ (.var st.store.length) := resolve_den hs2 hres
+      have a2' : inst t (den σ r) = true := by rw [hden]; exact a2
+      have hneg := negatable_of (env := env) hres hWr hs2 hsg (by simpa using hu) hn
+      obtain ⟨t', b1, b2, _⟩ := neg_mono t (den σ r) (den σ r) a2' (den_ground hσ r hWr) hneg
+      refine ⟨t', dd, ?_, by rw [heq5 σ hs]; exact b2, a3⟩
+      simp only [synth, a1', b1, bind, Except.bind, pure, Except.pure]
+    · simp only [hn, Bool.false_eq_true, if_false] at h6; exact (throw_ok.mp h6).elim
+
+end RotoV.TcInfer
+
+namespace RotoV.TcInfer
+open RotoV.Typing RotoV.Unify RotoV.Gen
+
+theorem compat_self {G : Ty} (hg : ground G = true) : compat G G = true := inst_compat G G hg (inst_self G hg)
+
+/-- the declarative side of a binary operator whose operands were checked against ground types -/
+theorem bin_decl {env : Env} {ctx : Ctx} {gd : Gamma} {op : BinOp} {l r : Expr} {tl tr : Ty} {ddl ddr : Bool}
+    {GL GR GRes : Ty}
+    (h1 : synth env ctx gd l = .ok (tl, ddl)) (h2 : synth env ctx gd r = .ok (tr, ddr))
+    (i1 : inst tl GL = true) (i2 : inst tr GR = true) (g1 : ground GL = true) (g2 : ground GR = true)
+    (hb : binopTy op GL GR = some GRes) :
+    ∃ res, synth env ctx gd (.bin op l r) = .ok (res, binDiv op ddl ddr) ∧ inst res GRes = true := by
+  obtain ⟨res, b1, b2, _⟩ := binop_mono op tl tr GL GR GRes i1 i2 g1 g2 hb
+  exact ⟨res, by simp only [synth, h1, h2, b1, bind, Except.bind, pure, Except.pure], b2⟩
+
+theorem numeric_of {env : Env} {s : Store} {a r : MTy} {σ : Val} (hres : resolve s a = some r)
+    (hs : Sat σ s) (hn : isNumericR env r = true) : isNumeric (den σ r) = true := by
+  have hd := mkDefs_std env
+  cases r with
+  | intVar i sg =>
+    have hroot : s[i]? = some (.intVar i sg) := resolve_root hres rfl
+    have := (hs i _ hroot).2.1
+    simp only [den]
+    cases hv : σ i <;> simp [hv, isGInt] at this <;> rfl
+  | floatVar i =>
+    have hroot : s[i]? = some (.floatVar i) := resolve_root hres rfl
+    have := (hs i _ hroot).2
+    simp only [KindOk] at this
+    simp only [den]
+    cases hv : σ i <;> simp [hv, isGFloat] at this <;> rfl
+  | name n args =>
+    simp only [isNumericR, hd.isInt, hd.isFloat, Bool.or_eq_true, decide_eq_true_eq, beq_iff_eq] at hn
+    simp only [den]
+    rcases hn with h | h | h
+    · simp [denName, h, isNumeric]
+    · subst h; simp [denName, isNumeric]
+    · subst h; simp [denName, isNumeric]
+  | _ => simp [isNumericR] at hn
+
+theorem int_of {env : Env} {s : Store} {a r : MTy} {σ : Val} (hres : resolve s a = some r)
+    (hs : Sat σ s) (hn : isIntR env r = true) : isInt (den σ r) = true := by
+  have hd := mkDefs_std env
+  cases r with
+  | intVar i sg =>
+    have hroot : s[i]? = some (.intVar i sg) := resolve_root hres rfl
+    have := (hs i _ hroot).2.1
+    simp only [den]
+    cases hv : σ i <;> simp [hv, isGInt] at this <;> rfl
+  | name n args =>
+    simp only [isIntR, hd.isInt, decide_eq_true_eq] at hn
+    simp [den, denName, hn, isInt]
+  | _ => simp [isIntR] at hn
+
+theorem isNumeric_of_isInt {G : Ty} (h : isInt G = true) : isNumeric G = true := by
+  cases G <;> simp_all [isInt, isNumeric]
+
+theorem binop_arith {op : BinOp} {G : Ty} (hop : op = .add ∨ op = .sub ∨ op = .mul) (hg : ground G = true)
+    (hn : isNumeric G = true) : binopTy op G G = some G := by
+  rcases hop with rfl | rfl | rfl <;> simp [binopTy, hn, compat_self hg, meet_self G hg]
+
+theorem binop_cmp {op : BinOp} {G : Ty} (hop : op = .lt ∨ op = .le ∨ op = .gt ∨ op = .ge) (hg : ground G = true)
+    (hn : isNumeric G = true) : binopTy op G G = some .bool := by
+  rcases hop with rfl | rfl | rfl | rfl <;> simp [binopTy, hn, compat_self hg]
+
+theorem binop_eq {op : BinOp} {G : Ty} (hop : op = .eq ∨ op = .ne) (hg : ground G = true) :
+    binopTy op G G = some .bool := by
+  rcases hop with rfl | rfl <;> simp [binopTy, compat_self hg]
+
+theorem binop_mod {G : Ty} (hg : ground G = true) (hn : isInt G = true) : binopTy .mod G G = some G := by
+  simp [binopTy, hn, compat_self hg, meet_self G hg]
+
+theorem binop_logic {op : BinOp} (hop : op = .and ∨ op = .or) : binopTy op .bool .bool = some .bool := by
+  rcases hop with rfl | rfl <;> rfl
+
+theorem binop_add_string : binopTy .add .string .string = some .string := by rfl
+
+theorem binop_add_list {A : Ty} (hg : ground A = true) : binopTy .add (.list A) (.list A) = some (.list A) := by
+  simp [binopTy, isNumeric, compat, compat_self hg, meet_self A hg]
+
+end RotoV.TcInfer
+
+namespace RotoV.TcInfer
+open RotoV.Typing RotoV.Unify RotoV.Gen
+
+/-- an operand check of `binop`: checking against `τ` behaves like `expr` on that operand -/
+def OperandOk (env : Env) (cx : Cx) (g : MGamma) (e : Expr) (chk : MTy → M Bool) : Prop :=
+  ∀ τ st d st', WTs st.store → WT τ = true → chk τ st = .ok d st' → PostE env (cx.withTy τ) g e st d st'
+
+/-- the arithmetic arm of `binop` after the left operand has been checked against `v` -/
+theorem arith_tail {env : Env} {cx : Cx} {g : MGamma} {l r : Expr} {op : BinOp} {right : MTy → M Bool}
+    (hop : op = .add ∨ op = .sub ∨ op = .mul)
+    (hr : OperandOk env cx g r right) (hcx : WTcx cx)
+    {v : MTy} (hv : WT v = true) {st0 st1 : St} {dl : Bool} (hW1 : WTs st1.store)
+    (hl : PostE env (cx.withTy v) g l st0 dl st1)
+    {d : Bool} {st' : St}
+    (h : (do
+        let r0 ← resolveM v
+        if isNumericR env r0 then do
+          let dr ← right v
+          unifyM env cx.expected v
+          pure (dl || dr)
+        else throw .notNumeric : M Bool) st1 = .ok d st') :
+    PostE env cx g (.bin op l r) st0 d st' := by
+  obtain ⟨r0, st2, h1, h2⟩ := bind_ok.mp h
+  obtain ⟨rfl, hres⟩ := resolveM_ok h1
+  by_cases hn : isNumericR env r0 = true
+  · simp only [hn, if_true] at h2
+    obtain ⟨dr, st3, h3, h4⟩ := bind_ok.mp h2
+    obtain ⟨u, st4, h5, h6⟩ := bind_ok.mp h4
+    obtain ⟨rfl, rfl⟩ := pure_ok.mp h6
+    obtain ⟨hW3, hp3⟩ := hr v st1 dr st3 hW1 hv h3
+    obtain ⟨hW4, hE4, heq4⟩ := unifyM_ok h5 hW3 hcx.1 hv
+    refine ⟨hW4, fun σ hσ hs => ?_⟩
+    have hs3 := hE4.2 σ hs
+    obtain ⟨hs1, hsynr⟩ := hp3 σ hσ hs3
+    obtain ⟨hs0, hsynl⟩ := hl.2 σ hσ hs1
+    refine ⟨hs0, fun gd hgd => ?_⟩
+    obtain ⟨tl, ddl, a1, a2, a3⟩ := hsynl gd hgd
+    obtain ⟨tr, ddr, b1, b2, b3⟩ := hsynr gd hgd
+    have hG := den_ground hσ v hv
+    have hnum : isNumeric (den σ v) = true := by
+      rw [← resolve_den hs1 hres]; exact numeric_of hres hs1 hn
+    obtain ⟨res, c1, c2⟩ := bin_decl (op := op) a1 b1 a2 b2 hG hG (binop_arith hop hG hnum)
+    refine ⟨res, _, c1, by rw [heq4 σ hs]; exact c2, ?_⟩
+    intro hd
+    have : binDiv op ddl ddr = (ddl || ddr) := by rcases hop with rfl | rfl | rfl <;> rfl
+    rw [this]
+    simp only [Bool.or_eq_true] at hd ⊢
+    rcases hd with hd | hd
+    · exact Or.inl (a3 hd)
+    · exact Or.inr (b3 hd)
+  · simp only [hn, Bool.false_eq_true, if_false] at h2; exact (throw_ok.mp h2).elim
+
+/-- the String / List arms of `+`: the right operand against the left's type `v`,
+    the expression against `m` (which means the same as `v`) -/
+theorem concat_tail {env : Env} {cx : Cx} {g : MGamma} {l r : Expr} {right : MTy → M Bool}
+    (hr : OperandOk env cx g r right) (hcx : WTcx cx)
+    {v m : MTy} (hv : WT v = true) (hm : WT m = true) {st0 st1 : St} {dl : Bool} (hW1 : WTs st1.store)
+    (hl : PostE env (cx.withTy v) g l st0 dl st1)
+    (hmeq : ∀ σ : Val, Sat σ st1.store → den σ m = den σ v)
+    (hshape : ∀ σ : Val, GVal σ → Sat σ st1.store → binopTy .add (den σ v) (den σ v) = some (den σ v))
+    {c : Option (Sum Bool (MTy × Bool))} {st' : St}
+    (h : (do
+        let dr ← right v
+        unifyM env cx.expected m
+        pure (some (Sum.inl (dl || dr))) : M (Option (Sum Bool (MTy × Bool)))) st1 = .ok c st') :
+    ∃ d, c = some (Sum.inl d) ∧ PostE env cx g (.bin .add l r) st0 d st' := by
+  obtain ⟨dr, st3, h3, h4⟩ := bind_ok.mp h
+  obtain ⟨u, st4, h5, h6⟩ := bind_ok.mp h4
+  obtain ⟨rfl, rfl⟩ := pure_ok.mp h6
+  refine ⟨dl || dr, rfl, ?_⟩
+  obtain ⟨hW3, hp3⟩ := hr v st1 dr st3 hW1 hv h3
+  obtain ⟨hW4, hE4, heq4⟩ := unifyM_ok h5 hW3 hcx.1 hm
+  refine ⟨hW4, fun σ hσ hs => ?_⟩
+  have hs3 := hE4.2 σ hs
+  obtain ⟨hs1, hsynr⟩ := hp3 σ hσ hs3
+  obtain ⟨hs0, hsynl⟩ := hl.2 σ hσ hs1
+  refine ⟨hs0, fun gd hgd => ?_⟩
+  obtain ⟨tl, ddl, a1, a2, a3⟩ := hsynl gd hgd
+  obtain ⟨tr, ddr, b1, b2, b3⟩ := hsynr gd hgd
+  have hG := den_ground hσ v hv
+  obtain ⟨res, c1, c2⟩ := bin_decl (op := .add) a1 b1 a2 b2 hG hG (hshape σ hσ hs1)
+  refine ⟨res, _, c1, by rw [heq4 σ hs, hmeq σ hs1]; exact c2, ?_⟩
+  intro hd
+  show (ddl || ddr) = true
+  simp only [Bool.or_eq_true] at hd ⊢
+  rcases hd with hd | hd
+  · exact Or.inl (a3 hd)
+  · exact Or.inr (b3 hd)
+
+end RotoV.TcInfer
+
+namespace RotoV.TcInfer
+open RotoV.Typing RotoV.Unify RotoV.Gen
+
+theorem eq_case {env : Env} {cx : Cx} {g : MGamma} {l r : Expr} {op : BinOp} {left right : MTy → M Bool}
+    (hop : op = .eq ∨ op = .ne) (hl : OperandOk env cx g l left) (hr : OperandOk env cx g r right)
+    {st : St} {d : Bool} {st' : St} (hW : WTs st.store) (hcx : WTcx cx)
+    (h : (do
+        unifyM env cx.expected tBool
+        let ty ← freshVar
+        let dl ← left ty
+        let dr ← right ty
+        pure (dl || dr) : M Bool) st = .ok d st') :
+    PostE env cx g (.bin op l r) st d st' := by
+  obtain ⟨u, s0, a0, a0'⟩ := bind_ok.mp h
+  obtain ⟨v, s1, a1, a2⟩ := bind_ok.mp a0'
+  obtain ⟨dl, s2, a3, a4⟩ := bind_ok.mp a2
+  obtain ⟨dr, s3, a5, a6⟩ := bind_ok.mp a4
+  obtain ⟨rfl, rfl⟩ := pure_ok.mp a6
+  obtain ⟨hW0, hE0, heq0⟩ := unifyM_ok a0 hW hcx.1 WT_tBool
+  obtain ⟨rfl, hE1⟩ := freshVar_ok a1
+  have hpl := hl _ s1 dl s2 (hE1.1 hW0) (WT_var _) a3
+  obtain ⟨hW3, hp3⟩ := hr _ s2 dr s3 hpl.1 (WT_var _) a5
+  refine ⟨hW3, fun σ hσ hs => ?_⟩
+  obtain ⟨hs2, hsynr⟩ := hp3 σ hσ hs
+  obtain ⟨hs1, hsynl⟩ := hpl.2 σ hσ hs2
+  have hs0 := hE1.2 σ hs1
+  refine ⟨hE0.2 σ hs0, fun gd hgd => ?_⟩
+  obtain ⟨tl, ddl, c1, c2, c3⟩ := hsynl gd hgd
+  obtain ⟨tr, ddr, e1, e2, e3⟩ := hsynr gd hgd
+  have hG := den_ground hσ (.var s0.store.length) (WT_var _)
+  obtain ⟨res, f1, f2⟩ := bin_decl (op := op) c1 e1 c2 e2 hG hG (binop_eq hop hG)
+  refine ⟨res, _, f1, by rw [heq0 σ hs0, den_tBool]; exact f2, ?_⟩
+  intro hd
+  have : binDiv op ddl ddr = (ddl || ddr) := by rcases hop with rfl | rfl <;> rfl
+  rw [this]
+  simp only [Bool.or_eq_true] at hd ⊢
+  rcases hd with hd | hd
+  · exact Or.inl (c3 hd)
+  · exact Or.inr (e3 hd)
+
+theorem cmp_case {env : Env} {cx : Cx} {g : MGamma} {l r : Expr} {op : BinOp} {left right : MTy → M Bool}
+    (hop : op = .lt ∨ op = .le ∨ op = .gt ∨ op = .ge) (hl : OperandOk env cx g l left) (hr : OperandOk env cx g r right)
+    {st : St} {d : Bool} {st' : St} (hW : WTs st.store) (hcx : WTcx cx)
+    (h : (do
+        unifyM env cx.expected tBool
+        let ty ← freshVar
+        let dl ← left ty
+        let r0 ← resolveM ty
+        if isNumericR env r0 then do
+          let dr ← right ty
+          pure (dl || dr)
+        else throw .notNumeric : M Bool) st = .ok d st') :
+    PostE env cx g (.bin op l r) st d st' := by
+  obtain ⟨u, s0, a0, a0'⟩ := bind_ok.mp h
+  obtain ⟨v, s1, a1, a2⟩ := bind_ok.mp a0'
+  obtain ⟨dl, s2, a3, a4⟩ := bind_ok.mp a2
+  obtain ⟨r0, s3, a5, a6⟩ := bind_ok.mp a4
+  obtain ⟨rfl, hres⟩ := resolveM_ok a5
+  obtain ⟨hW0, hE0, heq0⟩ := unifyM_ok a0 hW hcx.1 WT_tBool
+  obtain ⟨rfl, hE1⟩ := freshVar_ok a1
+  have hpl := hl _ s1 dl s2 (hE1.1 hW0) (WT_var _) a3
+  by_cases hn : isNumericR env r0 = true
+  · simp only [hn, if_true] at a6
+    obtain ⟨dr, s4, b1, b2⟩ := bind_ok.mp a6
+    obtain ⟨rfl, rfl⟩ := pure_ok.mp b2
+    obtain ⟨hW3, hp3⟩ := hr _ s2 dr s4 hpl.1 (WT_var _) b1
+    refine ⟨hW3, fun σ hσ hs => ?_⟩
+    obtain ⟨hs2, hsynr⟩ := hp3 σ hσ hs
+    obtain ⟨hs1, hsynl⟩ := hpl.2 σ hσ hs2
+    have hs0 := hE1.2 σ hs1
+    refine ⟨hE0.2 σ hs0, fun gd hgd => ?_⟩
+    obtain ⟨tl, ddl, c1, c2, c3⟩ := hsynl gd hgd
+    obtain ⟨tr, ddr, e1, e2, e3⟩ := hsynr gd hgd
+    have hG := den_ground hσ (.var s0.store.length) (WT_var _)
+    have hnum : isNumeric (den σ (.var s0.store.length)) = true := by
+      rw [← resolve_den hs2 hres]; exact numeric_of hres hs2 hn
+    obtain ⟨res, f1, f2⟩ := bin_decl (op := op) c1 e1 c2 e2 hG hG (binop_cmp hop hG hnum)
+    refine ⟨res, _, f1, by rw [heq0 σ hs0, den_tBool]; exact f2, ?_⟩
+    intro hd
+    have : binDiv op ddl ddr = (ddl || ddr) := by rcases hop with rfl | rfl | rfl | rfl <;> rfl
+    rw [this]
+    simp only [Bool.or_eq_true] at hd ⊢
+    rcases hd with hd | hd
+    · exact Or.inl (c3 hd)
+    · exact Or.inr (e3 hd)
+  · simp only [hn, Bool.false_eq_true, if_false] at a6; exact (throw_ok.mp a6).elim
+
+theorem logic_case {env : Env} {cx : Cx} {g : MGamma} {l r : Expr} {op : BinOp} {left right : MTy → M Bool}
+    (hop : op = .and ∨ op = .or) (hl : OperandOk env cx g l left) (hr : OperandOk env cx g r right)
+    {st : St} {d : Bool} {st' : St} (hW : WTs st.store) (hcx : WTcx cx)
+    (h : (do
+        unifyM env cx.expected tBool
+        let dl ← left tBool
+        let _ ← right tBool
+        pure dl : M Bool) st = .ok d st') :
+    PostE env cx g (.bin op l r) st d st' := by
+  obtain ⟨u, s0, a0, a0'⟩ := bind_ok.mp h
+  obtain ⟨dl, s2, a3, a4⟩ := bind_ok.mp a0'
+  obtain ⟨dr, s3, a5, a6⟩ := bind_ok.mp a4
+  obtain ⟨rfl, rfl⟩ := pure_ok.mp a6
+  obtain ⟨hW0, hE0, heq0⟩ := unifyM_ok a0 hW hcx.1 WT_tBool
+  have hpl := hl _ s0 dl s2 hW0 WT_tBool a3
+  obtain ⟨hW3, hp3⟩ := hr _ s2 dr s3 hpl.1 WT_tBool a5
+  refine ⟨hW3, fun σ hσ hs => ?_⟩
+  obtain ⟨hs2, hsynr⟩ := hp3 σ hσ hs
+  obtain ⟨hs0, hsynl⟩ := hpl.2 σ hσ hs2
+  refine ⟨hE0.2 σ hs0, fun gd hgd => ?_⟩
+  obtain ⟨tl, ddl, c1, c2, c3⟩ := hsynl gd hgd
+  obtain ⟨tr, ddr, e1, e2, e3⟩ := hsynr gd hgd
+  have c2' : inst tl .bool = true := by simpa [Cx.withTy, den_tBool] using c2
+  have e2' : inst tr .bool = true := by simpa [Cx.withTy, den_tBool] using e2
+  obtain ⟨res, f1, f2⟩ := bin_decl (op := op) c1 e1 c2' e2' rfl rfl (binop_logic hop)
+  refine ⟨res, _, f1, by rw [heq0 σ hs0, den_tBool]; exact f2, ?_⟩
+  intro hd
+  have : binDiv op ddl ddr = ddl := by rcases hop with rfl | rfl <;> rfl
+  rw [this]; exact c3 hd
+
+theorem binopWith_sound {env : Env} {cx : Cx} {g : MGamma} {l r : Expr} {op : BinOp} {left right : MTy → M Bool}
+    (hop : op ≠ .div) (hl : OperandOk env cx g l left) (hr : OperandOk env cx g r right)
+    {st : St} {d : Bool} {st' : St} (hW : WTs st.store) (hcx : WTcx cx)
+    (h : binopWith env cx.expected op left right st = .ok d st') :
+    PostE env cx g (.bin op l r) st d st' := by
+  unfold binopWith at h
+  cases op with
+  | div => exact absurd rfl hop
+  | sub =>
+    simp only at h
+    obtain ⟨c, st0, h0, h1⟩ := bind_ok.mp h
+    obtain ⟨rfl, rfl⟩ := pure_ok.mp h0
+    simp only at h1
+    obtain ⟨x, st1, h2, h3⟩ := bind_ok.mp h1
+    obtain ⟨v, s1, a1, a2⟩ := bind_ok.mp h2
+    obtain ⟨dl, s2, a3, a4⟩ := bind_ok.mp a2
+    obtain ⟨rfl, rfl⟩ := pure_ok.mp a4
+    obtain ⟨rfl, hE1⟩ := freshVar_ok a1
+    have hpl := hl _ s1 dl s2 (hE1.1 hW) (WT_var _) a3
+    have hpl' : PostE env (cx.withTy (.var st.store.length)) g l st dl s2 :=
+      ⟨hpl.1, fun σ hσ hs => ⟨hE1.2 σ (hpl.2 σ hσ hs).1, (hpl.2 σ hσ hs).2⟩⟩
+    exact arith_tail (Or.inr (Or.inl rfl)) hr hcx (WT_var _) hpl.1 hpl' h3
+  | mul =>
+    simp only at h
+    obtain ⟨c, st0, h0, h1⟩ := bind_ok.mp h
+    obtain ⟨rfl, rfl⟩ := pure_ok.mp h0
+    simp only at h1
+    obtain ⟨x, st1, h2, h3⟩ := bind_ok.mp h1
+    obtain ⟨v, s1, a1, a2⟩ := bind_ok.mp h2
+    obtain ⟨dl, s2, a3, a4⟩ := bind_ok.mp a2
+    obtain ⟨rfl, rfl⟩ := pure_ok.mp a4
+    obtain ⟨rfl, hE1⟩ := freshVar_ok a1
+    have hpl := hl _ s1 dl s2 (hE1.1 hW) (WT_var _) a3
+    have hpl' : PostE env (cx.withTy (.var st.store.length)) g l st dl s2 :=
+      ⟨hpl.1, fun σ hσ hs => ⟨hE1.2 σ (hpl.2 σ hσ hs).1, (hpl.2 σ hσ hs).2⟩⟩
+    exact arith_tail (Or.inr (Or.inr rfl)) hr hcx (WT_var _) hpl.1 hpl' h3
+  | add =>
+    simp only at h
+    obtain ⟨checked, stc, hA, hB⟩ := bind_ok.mp h
+    obtain ⟨v, s1, a1, a2⟩ := bind_ok.mp hA
+    obtain ⟨dl, s2, a3, a4⟩ := bind_ok.mp a2
+    obtain ⟨r0, s3, a5, a6⟩ := bind_ok.mp a4
+    obtain ⟨rfl, hres⟩ := resolveM_ok a5
+    obtain ⟨rfl, hE1⟩ := freshVar_ok a1
+    have hpl := hl _ s1 dl s2 (hE1.1 hW) (WT_var _) a3
+    have hpl' : PostE env (cx.withTy (.var st.store.length)) g l st dl s2 :=
+      ⟨hpl.1, fun σ hσ hs => ⟨hE1.2 σ (hpl.2 σ hσ hs).1, (hpl.2 σ hσ hs).2⟩⟩
+    have hWr0 : WT r0 = true := resolve_WT hpl.1 (WT_var _) hres
+    have hcases : (∃ d0, checked = some (Sum.inl d0) ∧ PostE env cx g (.bin .add l r) st d0 stc) ∨
+        (checked = some (Sum.inr (MTy.var st.store.length, dl)) ∧ s2 = stc) := by
+      by_cases hstr : (r0 == tString) = true
+      · simp only [hstr, if_true] at a6
+        obtain ⟨d0, rfl, hp⟩ := concat_tail hr hcx (WT_var _) WT_tString hpl.1 hpl'
+          (fun σ hs => by rw [← resolve_den hs hres]; exact (beq_den σ r0 tString hstr).symm)
+          (fun σ _ hs => by
+            have : den σ (.var st.store.length) = .string := by
+              rw [← resolve_den hs hres, beq_den σ r0 tString hstr, den_tString]
+            rw [this]; exact binop_add_string) a6
+        exact Or.inl ⟨d0, rfl, hp⟩
+      · simp only [hstr, Bool.false_eq_true, if_false] at a6
+        cases r0 with
+        | name n args =>
+          simp only at a6
+          by_cases hlist : (n == nmList) = true
+          · simp only [hlist, if_true] at a6
+            have hn : n = nmList := by simpa using hlist
+            subst hn
+            obtain ⟨d0, rfl, hp⟩ := concat_tail hr hcx (WT_var _) (WT_var _) hpl.1 hpl'
+              (fun σ hs => rfl)
+              (fun σ hσ hs => by
+                simp only [WT, Bool.and_eq_true, beq_iff_eq] at hWr0
+                have hlen : args.length = 1 := by rw [hWr0.2]; rfl
+                cases args with
+                | nil => simp at hlen
+                | cons a as =>
+                  cases as with
+                  | cons _ _ => simp at hlen
+                  | nil =>
+                    have hWa : WT a = true := by simpa [WTl] using hWr0.1
+                    have : den σ (.var st.store.length) = .list (den σ a) := by
+                      rw [← resolve_den hs hres]; simp [den, denL, denName, nmList]
+                    rw [this]; exact binop_add_list (den_ground hσ a hWa)) a6
+            exact Or.inl ⟨d0, rfl, hp⟩
+          · simp only [hlist, Bool.false_eq_true, if_false] at a6
+            obtain ⟨rfl, rfl⟩ := pure_ok.mp a6
+            exact Or.inr ⟨rfl, rfl⟩
+        | var _ => simp only at a6; obtain ⟨rfl, rfl⟩ := pure_ok.mp a6; exact Or.inr ⟨rfl, rfl⟩
+        | intVar _ _ => simp only at a6; obtain ⟨rfl, rfl⟩ := pure_ok.mp a6; exact Or.inr ⟨rfl, rfl⟩
+        | floatVar _ => simp only at a6; obtain ⟨rfl, rfl⟩ := pure_ok.mp a6; exact Or.inr ⟨rfl, rfl⟩
+        | unit => simp only at a6; obtain ⟨rfl, rfl⟩ := pure_ok.mp a6; exact Or.inr ⟨rfl, rfl⟩
+        | _ => simp [WT] at hWr0
+    rcases hcases with ⟨d0, rfl, hp⟩ | ⟨rfl, rfl⟩
+    · simp only at hB
+      obtain ⟨rfl, rfl⟩ := pure_ok.mp hB
+      exact hp
+    · simp only at hB
+      obtain ⟨x, st1, h2, h3⟩ := bind_ok.mp hB
+      obtain ⟨rfl, rfl⟩ := pure_ok.mp h2
+      exact arith_tail (Or.inl rfl) hr hcx (WT_var _) hpl.1 hpl' h3
+  | mod =>
+    simp only at h
+    obtain ⟨c, st0, h0, h1⟩ := bind_ok.mp h
+    obtain ⟨rfl, rfl⟩ := pure_ok.mp h0
+    simp only at h1
+    obtain ⟨v, s1, a1, a2⟩ := bind_ok.mp h1
+    obtain ⟨dl, s2, a3, a4⟩ := bind_ok.mp a2
+    obtain ⟨r0, s3, a5, a6⟩ := bind_ok.mp a4
+    obtain ⟨rfl, hres⟩ := resolveM_ok a5
+    obtain ⟨rfl, hE1⟩ := freshVar_ok a1
+    have hpl := hl _ s1 dl s2 (hE1.1 hW) (WT_var _) a3
+    by_cases hn : isIntR env r0 = true
+    · simp only [hn, if_true] at a6
+      obtain ⟨dr, s4, b1, b2⟩ := bind_ok.mp a6
+      obtain ⟨u, s5, b3, b4⟩ := bind_ok.mp b2
+      obtain ⟨rfl, rfl⟩ := pure_ok.mp b4
+      obtain ⟨hW4, hp4⟩ := hr _ s2 dr s4 hpl.1 (WT_var _) b1
+      obtain ⟨hW5, hE5, heq5⟩ := unifyM_ok b3 hW4 hcx.1 (WT_var _)
+      refine ⟨hW5, fun σ hσ hs => ?_⟩
+      have hs4 := hE5.2 σ hs
+      obtain ⟨hs2, hsynr⟩ := hp4 σ hσ hs4
+      obtain ⟨hs1, hsynl⟩ := hpl.2 σ hσ hs2
+      refine ⟨hE1.2 σ hs1, fun gd hgd => ?_⟩
+      obtain ⟨tl, ddl, c1, c2, c3⟩ := hsynl gd hgd
+      obtain ⟨tr, ddr, e1, e2, e3⟩ := hsynr gd hgd
+      have hG := den_ground hσ (.var st.store.length) (WT_var _)
+      have hint : isInt (den σ (.var st.store.length)) = true := by
+        rw [← resolve_den hs2 hres]; exact int_of hres hs2 hn
+      obtain ⟨res, f1, f2⟩ := bin_decl (op := .mod) c1 e1 c2 e2 hG hG (binop_mod hG hint)
+      refine ⟨res, _, f1, by rw [heq5 σ hs]; exact f2, ?_⟩
+      intro hd
+      show (ddl || ddr) = true
+      simp only [Bool.or_eq_true] at hd ⊢
+      rcases hd with hd | hd
+      · exact Or.inl (c3 hd)
+      · exact Or.inr (e3 hd)
+    · simp only [hn, Bool.false_eq_true, if_false] at a6; exact (throw_ok.mp a6).elim
+  | eq =>
+    simp only at h
+    obtain ⟨c, st0, h0, h1⟩ := bind_ok.mp h
+    obtain ⟨rfl, rfl⟩ := pure_ok.mp h0
+    exact eq_case (Or.inl rfl) hl hr hW hcx h1
+  | ne =>
+    simp only at h
+    obtain ⟨c, st0, h0, h1⟩ := bind_ok.mp h
+    obtain ⟨rfl, rfl⟩ := pure_ok.mp h0
+    exact eq_case (Or.inr rfl) hl hr hW hcx h1
+  | lt =>
+    simp only at h
+    obtain ⟨c, st0, h0, h1⟩ := bind_ok.mp h
+    obtain ⟨rfl, rfl⟩ := pure_ok.mp h0
+    exact cmp_case (Or.inl rfl) hl hr hW hcx h1
+  | le =>
+    simp only at h
+    obtain ⟨c, st0, h0, h1⟩ := bind_ok.mp h
+    obtain ⟨rfl, rfl⟩ := pure_ok.mp h0
+    exact cmp_case (Or.inr (Or.inl rfl)) hl hr hW hcx h1
+  | gt =>
+    simp only at h
+    obtain ⟨c, st0, h0, h1⟩ := bind_ok.mp h
+    obtain ⟨rfl, rfl⟩ := pure_ok.mp h0
+    exact cmp_case (Or.inr (Or.inr (Or.inl rfl))) hl hr hW hcx h1
+  | ge =>
+    simp only at h
+    obtain ⟨c, st0, h0, h1⟩ := bind_ok.mp h
+    obtain ⟨rfl, rfl⟩ := pure_ok.mp h0
+    exact cmp_case (Or.inr (Or.inr (Or.inr rfl))) hl hr hW hcx h1
+  | and =>
+    simp only at h
+    obtain ⟨c, st0, h0, h1⟩ := bind_ok.mp h
+    obtain ⟨rfl, rfl⟩ := pure_ok.mp h0
+    exact logic_case (Or.inl rfl) hl hr hW hcx h1
+  | or =>
+    simp only at h
+    obtain ⟨c, st0, h0, h1⟩ := bind_ok.mp h
+    obtain ⟨rfl, rfl⟩ := pure_ok.mp h0
+    exact logic_case (Or.inr rfl) hl hr hW hcx h1
+
 end RotoV.TcInfer
